@@ -1,6 +1,6 @@
 /- Line-protocol handler for the `cascade` stream (C05).
    request : `cascade <shell types, e.g. 0c,1c,2p> <ok bits, one per attempt of Gen.cascade>`
-   response: `tests=<i>:<0|1>,... out=<idx>:<warning|none> store=<basis|->/<coeff|->`  or  `... out=LoadError` -/
+   response: `tests=<basis>/<coeff>:<0|1>,... out=<idx>:<warning|none> store=<basis>/<coeff>` (`raw` = as read)  or  `... out=LoadError` -/
 import Iodata.Model.Cascade
 import Iodata.Gen.Cascade
 namespace Iodata.Drv.Cascade
@@ -15,15 +15,18 @@ def parseTypes (s : String) : List ShellType := if s == "@" then [] else (s.spli
 
 def okOf (bits : String) : Nat → Bool := fun i => (bits.toList.getD i '0') == '1'
 
-def showTests (ts : List (Nat × Bool)) : String :=
-  ",".intercalate (ts.map fun t => s!"{t.1}:{if t.2 then 1 else 0}")
+def showTests (as : List Attempt) (ts : List (Nat × Bool)) : String :=
+  ",".intercalate (ts.map fun t =>
+    match as[t.1]? with
+    | some a => s!"{a.testBasis.show}/{a.testCoeff.show}:{if t.2 then 1 else 0}"
+    | none => "?")
 
 def showOutcome : Outcome → String
   | .loadError => "out=LoadError"
   | .loaded i a =>
     let w := match a.warn with | some w => w.show | none => "none"
-    let b := match a.storeBasis with | some b => b.show | none => "-"
-    let c := match a.storeCoeff with | some c => c.show | none => "-"
+    let b := match a.storeBasis with | some b => b.show | none => "raw"
+    let c := match a.storeCoeff with | some c => c.show | none => "raw"
     s!"out={i}:{w} store={b}/{c}"
 
 def handle : List String → Option String
@@ -32,7 +35,7 @@ def handle : List String → Option String
     let ok := okOf bits
     let T := Iodata.Gen.Cascade.tables
     let as := Iodata.Gen.Cascade.cascade
-    some (s!"tests={showTests (testsFrom T sh ok 0 as)} " ++ showOutcome (run T as sh ok))
+    some (s!"tests={showTests as (testsFrom T sh ok 0 as)} " ++ showOutcome (run T as sh ok))
   | ["cascade-scales", types] =>
     -- per basis fix, the scale descriptor of every shell
     let sh := parseTypes types
